@@ -933,6 +933,11 @@ class FD:
             if not hasattr(importlib.import_module(name.split('.')[0]), name.split('.')[1]):
                 # a function the standard module simply does not have (math.truncate): CPython raises AttributeError
                 raise Raised('AttributeError', "module '%s' has no attribute '%s'" % tuple(name.split('.')))
+        if name in _PURE_DOTTED and name.split('.')[0] not in env and name not in self.calls:
+            # a pure text function of the standard library on concrete operands: its value is what the library says
+            args = [self.eval(a, env) for a in e.args]
+            kwargs = {k.arg: self.eval(k.value, env) for k in e.keywords}
+            return _pure(_PURE_DOTTED[name], name)(*args, **kwargs)
         if isinstance(e.func, ast.Attribute):
             recv = self.eval(e.func.value, env)
             args = [self.eval(a, env) for a in e.args]
@@ -1628,6 +1633,13 @@ def _pure(f, name):
 _PURE_STDLIB = {('ast', 'literal_eval'): ast.literal_eval, ('math', 'isnan'): __import__('math').isnan,
                 ('math', 'isinf'): __import__('math').isinf, ('math', 'isfinite'): __import__('math').isfinite,
                 ('itertools', 'zip_longest'): lambda *a, **k: list(__import__('itertools').zip_longest(*a, **k))}
+
+
+_PURE_DOTTED = {'textwrap.dedent': __import__('textwrap').dedent, 'textwrap.indent': __import__('textwrap').indent,
+                'inspect.cleandoc': __import__('inspect').cleandoc, 'os.path.basename': __import__('os').path.basename,
+                'os.path.splitext': __import__('os').path.splitext, 'os.path.normpath': __import__('os').path.normpath,
+                'html.escape': __import__('html').escape, 'keyword.iskeyword': __import__('keyword').iskeyword,
+                'string.capwords': __import__('string').capwords, 'unicodedata.normalize': __import__('unicodedata').normalize}
 
 
 class ModRef:
